@@ -215,10 +215,17 @@ theorem inUse_recorded {env : Env} {st : Store} {d : Digest} (h : st.referenced 
     correctly named; manifests do not change -/
 structure BlobStep (env : Env) (st st' : Store) : Prop where
   mans : st'.mans = st.mans
+  /-- other files of the blobs directory: none appears except under a `plain` (non-blob, non-legacy) name -/
+  junk : ∀ p ∈ st'.junk, p ∈ st.junk ∨ ∃ s, p.1 = .plain s
   blobs : ∀ k, st'.blob k = st.blob k ∨
     ((st.keyReferenced k = false ∨ st.blob k = none) ∧ ∀ c, st'.blob k = some c → env.hash c = k)
 
-theorem BlobStep.refl (env : Env) (st : Store) : BlobStep env st st := ⟨rfl, fun _ => Or.inl rfl⟩
+/-- a file named `sha256:<64 hex>` (legacy spelling, renamed by `fixBlobs` at startup) holds that content -/
+def LegacyOk (env : Env) (st : Store) : Prop :=
+  ∀ p ∈ st.junk, ∀ r, p.1 = .colon r → isHex64 r = true → env.hash p.2 = r
+
+theorem BlobStep.refl (env : Env) (st : Store) : BlobStep env st st :=
+  ⟨rfl, fun _ h => Or.inl h, fun _ => Or.inl rfl⟩
 
 theorem keyReferenced_congr {st st' : Store} (h : st'.mans = st.mans) (k : String) :
     st'.keyReferenced k = st.keyReferenced k := by
@@ -235,7 +242,7 @@ theorem man_congr {st st' : Store} (h : st'.mans = st.mans) (n : Name) : st'.man
 
 theorem BlobStep.trans {env : Env} {a b c : Store} (h1 : BlobStep env a b) (h2 : BlobStep env b c) :
     BlobStep env a c := by
-  refine ⟨h2.mans.trans h1.mans, fun k => ?_⟩
+  refine ⟨h2.mans.trans h1.mans, fun p hp => (h2.junk p hp).elim (fun h => h1.junk p h) Or.inr, fun k => ?_⟩
   rcases h1.blobs k with e1 | ⟨p1, v1⟩
   · rcases h2.blobs k with e2 | ⟨p2, v2⟩
     · exact Or.inl (e2.trans e1)
@@ -245,6 +252,13 @@ theorem BlobStep.trans {env : Env} {a b c : Store} (h1 : BlobStep env a b) (h2 :
   · rcases h2.blobs k with e2 | ⟨_, v2⟩
     · exact Or.inr ⟨p1, fun c hc => v1 c (e2 ▸ hc)⟩
     · exact Or.inr ⟨p1, v2⟩
+
+theorem BlobStep.legacy {env : Env} {st st' : Store} (h : BlobStep env st st') (hl : LegacyOk env st) :
+    LegacyOk env st' := by
+  intro p hp r hr hx
+  rcases h.junk p hp with h' | ⟨s, h'⟩
+  · exact hl p h' r hr hx
+  · rw [h'] at hr; cases hr
 
 theorem BlobStep.blobsOk {env : Env} {st st' : Store} (h : BlobStep env st st') (hb : BlobsOk env st) :
     BlobsOk env st' := by
@@ -298,7 +312,7 @@ theorem layerRemove_step (env : Env) {st : Store} (hg : Guard env st) {d : Diges
   · simp only [hr, if_true]; exact BlobStep.refl env st
   · have hr' : env.inUse st d = false := by cases h : env.inUse st d <;> simp_all
     simp only [hr', Bool.false_eq_true, if_false]
-    refine ⟨rfl, fun k => ?_⟩
+    refine ⟨rfl, fun _ h => Or.inl h, fun k => ?_⟩
     rw [blob_adel]
     by_cases hk : k = d.key
     · subst hk
@@ -353,7 +367,7 @@ theorem putBlob_mans (env : Env) (st : Store) (c : Bytes) : (putBlob env st c).m
   unfold putBlob; split <;> rfl
 
 theorem putBlob_step (env : Env) (st : Store) (c : Bytes) : BlobStep env st (putBlob env st c) := by
-  refine ⟨putBlob_mans env st c, fun k => ?_⟩
+  refine ⟨putBlob_mans env st c, fun p hp => Or.inl (by unfold putBlob at hp; split at hp <;> exact hp), fun k => ?_⟩
   rw [putBlob_blob]
   by_cases h : k = env.hash c ∧ st.blob (env.hash c) = none
   · obtain ⟨h1, h2⟩ := h
@@ -1031,36 +1045,37 @@ structure Good (env : Env) (st st' : Store) (T : List Name) : Prop where
   blobsOk : BlobsOk env st'
   nameInv : NameInv env st → NameInv env st'
   canon : Guard env st'
+  legacy : LegacyOk env st → LegacyOk env st'
   frameMan : ∀ n, n ∉ T → st'.man n = st.man n
   frameBlob : ∀ n m, n ∉ T → st.man n = some (.readable m) → ∀ l ∈ m.all, ∀ c,
     st.blob l.digest.key = some c → st'.blob l.digest.key = some c
 
 theorem Good.refl {env : Env} {st : Store} (hb : BlobsOk env st) (hc : Guard env st) (T : List Name) :
     Good env st st T :=
-  ⟨hb, id, hc, fun _ _ => rfl, fun _ _ _ _ _ _ _ h => h⟩
+  ⟨hb, id, hc, id, fun _ _ => rfl, fun _ _ _ _ _ _ _ h => h⟩
 
 theorem Good.ofBlobStep {env : Env} {st st' : Store} (h : BlobStep env st st') (hb : BlobsOk env st)
     (hc : Guard env st) (T : List Name) : Good env st st' T :=
-  ⟨h.blobsOk hb, h.nameInv, h.guard hc, fun n _ => man_congr h.mans n,
+  ⟨h.blobsOk hb, h.nameInv, h.guard hc, h.legacy, fun n _ => man_congr h.mans n,
    fun _ _ _ hm _ hl _ hc' => h.keep hm hl hc'⟩
 
 theorem Good.trans {env : Env} {a b c : Store} {T : List Name} (h1 : Good env a b T) (h2 : Good env b c T) :
     Good env a c T :=
-  ⟨h2.blobsOk, fun h => h2.nameInv (h1.nameInv h), h2.canon,
+  ⟨h2.blobsOk, fun h => h2.nameInv (h1.nameInv h), h2.canon, fun h => h2.legacy (h1.legacy h),
    fun n hn => (h2.frameMan n hn).trans (h1.frameMan n hn),
    fun n m hn hm l hl c hc =>
      h2.frameBlob n m hn ((h1.frameMan n hn).trans hm) l hl c (h1.frameBlob n m hn hm l hl c hc)⟩
 
 theorem Good.mono {env : Env} {st st' : Store} {T T' : List Name} (h : Good env st st' T)
     (hT : ∀ n, n ∈ T → n ∈ T') : Good env st st' T' :=
-  ⟨h.blobsOk, h.nameInv, h.canon, fun n hn => h.frameMan n (fun h' => hn (hT n h')),
+  ⟨h.blobsOk, h.nameInv, h.canon, h.legacy, fun n hn => h.frameMan n (fun h' => hn (hT n h')),
    fun n m hn => h.frameBlob n m (fun h' => hn (hT n h'))⟩
 
 theorem Good.setManifest {env : Env} {st : Store} (hb : BlobsOk env st) (hc : Guard env st) (n : Name)
     (f : MFile) (hf : ∀ m, f = .readable m → (∀ l ∈ m.all, GD env l.digest) ∧ ∀ l ∈ m.all, Complete env st l) :
     Good env st (setManifest st n f) [n] := by
   refine ⟨hb, fun hi => setManifest_nameInv hi n f (fun m e => (hf m e).2),
-    hc.setManifest n f (fun m e => (hf m e).1), ?_, ?_⟩
+    hc.setManifest n f (fun m e => (hf m e).1), id, ?_, ?_⟩
   · intro n' hn'
     rw [setManifest_man]
     simp only [List.mem_singleton] at hn'
@@ -1069,7 +1084,7 @@ theorem Good.setManifest {env : Env} {st : Store} (hb : BlobsOk env st) (hc : Gu
 
 theorem Good.delManifest {env : Env} {st : Store} (hb : BlobsOk env st) (hc : Guard env st) (n : Name) :
     Good env st (delManifest st n) [n] := by
-  refine ⟨hb, fun hi => delManifest_nameInv hi n, hc.delManifest n, ?_, ?_⟩
+  refine ⟨hb, fun hi => delManifest_nameInv hi n, hc.delManifest n, id, ?_, ?_⟩
   · intro n' hn'
     rw [delManifest_man]
     simp only [List.mem_singleton] at hn'
@@ -1116,7 +1131,7 @@ theorem pruneLayers_blob (env : Env) (st : Store) (k : String) :
   exact aget_filter_key st.blobs (fun k => env.inUse st ⟨.colon, k⟩) k
 
 theorem pruneLayers_step (env : Env) {st : Store} (hc : Guard env st) : BlobStep env st (pruneLayers env st) := by
-  refine ⟨rfl, fun k => ?_⟩
+  refine ⟨rfl, fun p hp => Or.inl (List.mem_filter.mp hp).1, fun k => ?_⟩
   rw [pruneLayers_blob]
   cases hr : env.inUse st ⟨.colon, k⟩ with
   | true => exact Or.inl rfl
@@ -1128,12 +1143,112 @@ theorem pruneLayers_step (env : Env) {st : Store} (hc : Guard env st) : BlobStep
       have := inUse_of_key hc (d := ⟨.colon, k⟩) (Or.inr rfl) hk
       rw [hr] at this; cases this
 
-theorem pruneStartup_good {env : Env} {st : Store} (hb : BlobsOk env st) (hc : Guard env st) :
+/-! ### fixBlobs and the non-blob files -/
+
+/-- the `sha256:<rest>` files -/
+def colonFiles (st : Store) : List (String × Bytes) :=
+  st.junk.filterMap (fun p => match p.1 with
+    | .colon r => some (r, p.2)
+    | .plain _ => none)
+
+theorem mem_colonFiles {st : Store} {rc : String × Bytes} (h : rc ∈ colonFiles st) :
+    ∃ p ∈ st.junk, p.1 = .colon rc.1 ∧ p.2 = rc.2 := by
+  unfold colonFiles at h
+  rw [List.mem_filterMap] at h
+  obtain ⟨p, hp, he⟩ := h
+  cases hn : p.1 with
+  | colon r => rw [hn] at he; injection he with e; subst e; exact ⟨p, hp, hn, rfl⟩
+  | plain s => rw [hn] at he; cases he
+
+theorem fixBlobs_fold_blob (cols : List (String × Bytes)) (b : List (String × Bytes)) (k : String) :
+    aget (cols.foldl (fun b rc => if isHex64 rc.1 then aset b rc.1 rc.2 else b) b) k = aget b k ∨
+    ∃ rc ∈ cols, isHex64 rc.1 = true ∧ rc.1 = k ∧
+      aget (cols.foldl (fun b rc => if isHex64 rc.1 then aset b rc.1 rc.2 else b) b) k = some rc.2 := by
+  induction cols generalizing b with
+  | nil => exact Or.inl rfl
+  | cons rc t ih =>
+    simp only [List.foldl]
+    rcases ih (if isHex64 rc.1 then aset b rc.1 rc.2 else b) with h | ⟨x, hx, h1, h2, h3⟩
+    · by_cases hh : isHex64 rc.1 = true
+      · simp only [hh, if_true] at h ⊢
+        rw [aget_aset] at h
+        by_cases hk : k = rc.1
+        · simp only [hk, if_true] at h
+          exact Or.inr ⟨rc, by simp, hh, hk.symm, by rw [hk]; exact h⟩
+        · simp only [hk, if_false] at h
+          exact Or.inl h
+      · simp only [hh] at h ⊢
+        exact Or.inl h
+    · exact Or.inr ⟨x, by simp [hx], h1, h2, h3⟩
+
+theorem fixBlobs_blob (st : Store) (k : String) :
+    (fixBlobs st).blob k = st.blob k ∨
+    ∃ rc ∈ colonFiles st, isHex64 rc.1 = true ∧ rc.1 = k ∧ (fixBlobs st).blob k = some rc.2 :=
+  fixBlobs_fold_blob (colonFiles st) st.blobs k
+
+theorem fixBlobs_fold_junk (cols : List (String × Bytes)) (j : List (JName × Bytes))
+    (hj : ∀ p ∈ j, ∃ s, p.1 = .plain s) :
+    ∀ p ∈ cols.foldl (fun j rc => if isHex64 rc.1 then j else aset j (.plain ("sha256-" ++ rc.1)) rc.2) j,
+      ∃ s, p.1 = .plain s := by
+  induction cols generalizing j with
+  | nil => exact hj
+  | cons rc t ih =>
+    simp only [List.foldl]
+    apply ih
+    split
+    · exact hj
+    · intro p hp
+      unfold aset at hp
+      simp only [List.mem_cons] at hp
+      rcases hp with hp | hp
+      · subst hp; exact ⟨_, rfl⟩
+      · unfold adel at hp; exact hj p (List.mem_filter.mp hp).1
+
+/-- after `fixBlobs` no file is named `sha256:…` -/
+theorem fixBlobs_junk_plain (st : Store) : ∀ p ∈ (fixBlobs st).junk, ∃ s, p.1 = .plain s := by
+  unfold fixBlobs
+  simp only
+  apply fixBlobs_fold_junk
+  intro p hp
+  have := (List.mem_filter.mp hp).2
+  cases hn : p.1 with
+  | colon r => rw [hn] at this; cases this
+  | plain s => exact ⟨s, rfl⟩
+
+theorem fixBlobs_step {env : Env} (hinj : HashInj env) {st : Store} (hb : BlobsOk env st)
+    (hl : LegacyOk env st) : BlobStep env st (fixBlobs st) := by
+  refine ⟨rfl, fun p hp => Or.inr (fixBlobs_junk_plain st p hp), fun k => ?_⟩
+  rcases fixBlobs_blob st k with h | ⟨rc, hrc, hx, hk, h⟩
+  · exact Or.inl h
+  · obtain ⟨p, hp, hn, hc⟩ := mem_colonFiles hrc
+    have hh : env.hash rc.2 = k := by rw [← hc, ← hk]; exact hl p hp rc.1 hn hx
+    cases ho : st.blob k with
+    | none =>
+      refine Or.inr ⟨Or.inr rfl, fun c hc' => ?_⟩
+      rw [h] at hc'; injection hc' with e; rw [← e]; exact hh
+    | some c0 =>
+      have : c0 = rc.2 := hinj _ _ ((hb k c0 ho).trans hh.symm)
+      exact Or.inl (by rw [h, this])
+
+/-- `PruneLayers` removes every file whose name is not a digest; once `fixBlobs` has run that is every file
+    that is not `sha256-<64 hex>` -/
+theorem pruneLayers_junk_nil (env : Env) {st : Store} (h : ∀ p ∈ st.junk, ∃ s, p.1 = .plain s) :
+    (pruneLayers env st).junk = [] := by
+  unfold pruneLayers
+  simp only
+  rw [List.filter_eq_nil_iff]
+  intro p hp
+  obtain ⟨s, hs⟩ := h p hp
+  rw [hs]; simp
+
+theorem pruneStartup_good {env : Env} (hinj : HashInj env) {st : Store} (hb : BlobsOk env st)
+    (hc : Guard env st) (hl : LegacyOk env st) :
     Good env st (pruneStartup env st).1 [] := by
+  have s1 := fixBlobs_step hinj hb hl
   unfold pruneStartup
   split
-  · exact Good.refl hb hc _
-  · exact Good.ofBlobStep (pruneLayers_step env hc) hb hc _
+  · exact Good.ofBlobStep s1 hb hc _
+  · exact Good.ofBlobStep (s1.trans (pruneLayers_step env (s1.guard hc))) hb hc _
 
 /-- a `from` create meets the guard `Apart` by itself: every base layer is in use by the source manifest -/
 theorem apart_of_inUse {env : Env} {st : Store} {ls : List Layer} (r : CreateReq)
@@ -1417,6 +1532,8 @@ theorem step_man_frame (env : Env) (st : Store) (op : Op) (ch : Choice) (n : Nam
     split
     · rw [setManifest_man]; simp [hn]
     · rfl
+  | litter j c => rfl
+  | litterBlob k c => rfl
 
 /-! ## getExistingName and letter case -/
 
